@@ -1710,6 +1710,10 @@ class LLParser:
                     suffix_elem = t_elem.value.pop()
                     if suffix_elem.value is not None:
                         t_elem.value.extend(suffix_elem.value)
+                    else:
+                        # the suffix matched nothing, so the element ends
+                        # where it's last actual child ends
+                        t_elem.end_pos = t_elem.value[-1].end_pos
 
                 new_token_pos = top.cur_token_pos
                 parse_stack.pop()
